@@ -442,6 +442,12 @@ func (g *golden) names(o *old.DB, c *sod.DB, who string) {
 func RunGolden(p Params) *Result {
 	r := simrt.NewRand(simrt.Mix(p.Seed, 11))
 	cfg := &Config{Compress: r.Chance(1, 2), Lower: r.Chance(1, 2), Ext: exts[r.Intn(len(exts))], Cache: r.Chance(1, 2), Cons: map[string]model.Cons{}}
+	if !cfg.Compress && strings.HasSuffix(cfg.Ext, ".gz") {
+		// the pinned release cannot read its own uncompressed files under an extension that
+		// ends with .gz (it sniffs compression from the suffix; repaired in the current tree):
+		// the pinned side is only probed where the pinned release is itself correct
+		cfg.Compress = true
+	}
 	w := simrt.NewWorld(simrt.Mix(p.Seed, 12))
 	g := &golden{w: w, r: r.Fork(2), m: &gModel{objs: map[int]*shapes.GRec{}, uuid: map[int]string{}}, stats: map[string]int{}, cfg: cfg}
 	uuid.SetRand(w.UUIDRand())
